@@ -419,7 +419,8 @@ class kMinPathErrorCycles(walkmodel.AbstractWalkModelDiGraph):
         non_empty_weights = []
         non_empty_slacks = []
         for walk, weight, slack in zip(solution["walks"], solution["weights"], solution["slacks"]):
-            if len(walk) > 1:
+            # In node mode a single-node walk is a real walk (it traverses that node); only in edge mode it is empty
+            if len(walk) > (0 if self.flow_attr_origin == "node" else 1):
                 non_empty_walks.append(walk)
                 non_empty_weights.append(weight)
                 non_empty_slacks.append(slack)
